@@ -393,12 +393,18 @@ with parse_one (fs : flds) (kvs : list (name * xv)) {struct fs} : outcome tv :=
       end
   end.
 
-(* get_param_value: the default only when the argument is syntactically absent *)
+(* get_param_value (since fix d9e053e): the argument's value is resolved first;
+   the default applies when there is no value at all — the argument is absent
+   or bound to an omitted variable *)
 Definition impl_arg (vds : list vdef) (env : name -> xv) (t : rty) (d : option (xv * tv))
            (lit : option ival) : outcome tv :=
   match lit with
   | None => match d with Some (_, dt) => Ok dt | None => parse t None end
-  | Some l => if negb (vars_defined vds l) then Err 0 else parse t (erase (subst env l))
+  | Some l => if negb (vars_defined vds l) then Err 0
+              else match erase (subst env l), d with
+                   | None, Some (_, dt) => Ok dt
+                   | o, _ => parse t o
+                   end
   end.
 
 Definition impl_exec (sig : flds) (args : list (name * ival)) (vds : list vdef)
@@ -604,7 +610,7 @@ Fixpoint null_ok (t : rty) : bool :=
 
 Definition first_nz (a b : N) : N := if N.eqb a 0 then b else a.
 
-Definition K_ARG_DEFAULT : N := 1.   (* omitted variable bound to an argument that has a default *)
+Definition K_ARG_DEFAULT : N := 1.   (* (fixed in d9e053e, no longer produced) omitted variable bound to an argument that has a default *)
 Definition K_ENUM_STRING : N := 2.   (* string literal accepted where an enum value is required *)
 Definition K_LIST_NULL : N := 3.     (* null / nothing for a non-null list with nullable items becomes [null] *)
 Definition K_UNKNOWN_FIELD : N := 4. (* unknown input object field ignored *)
@@ -665,7 +671,7 @@ Definition dev_arg (vds : list vdef) (env : name -> xv) (t : rty) (d : option (x
       if negb (vars_defined vds l) then 0%N
       else let x := subst env l in
            if is_absent x then
-             match d with Some _ => K_ARG_DEFAULT | None => dev_missing t None end
+             dev_missing t d
            else dev t x
   end.
 
@@ -729,28 +735,6 @@ Definition satisfies (sig : flds) (args : list (name * ival)) (vds : list vdef)
   if static_ok sig args vds then res_eqb r (spec_request sig args vds vars)
   else match r with Ok a => args_typed sig a | Err _ => true | _ => false end.
 
-(* get_param_value with the candidate fix for class 1 (the default also applies
-   when the argument is bound to an omitted variable).  Used only by the verdict
-   function, so that the corrected code is not reported as a broken model. *)
-Definition impl_arg_fixed (vds : list vdef) (env : name -> xv) (t : rty) (d : option (xv * tv))
-           (lit : option ival) : outcome tv :=
-  match lit with
-  | None => match d with Some (_, dt) => Ok dt | None => parse t None end
-  | Some l => if negb (vars_defined vds l) then Err 0
-              else match erase (subst env l), d with
-                   | None, Some (_, dt) => Ok dt
-                   | o, _ => parse t o
-                   end
-  end.
-
-Definition impl_request_fixed (sig : flds) (args : list (name * ival)) (vds : list vdef)
-           (vars : list (name * xv)) (strict : bool) : outcome (list (name * tv)) :=
-  if strict && negb (strict_ok sig args vds vars) then Err 1
-  else match args_with (impl_arg_fixed vds (var_env vds vars)) sig args with
-       | Ok a => Ok a
-       | _ => Err 2
-       end.
-
 Definition check_c06 (sig : flds) (args : list (name * ival)) (vds : list vdef)
            (vars : list (name * xv)) (strict : bool) (impl : outcome (list (name * tv))) : N :=
   if negb (wf_case sig args vds vars) then 9%N
@@ -762,8 +746,6 @@ Definition check_c06 (sig : flds) (args : list (name * ival)) (vds : list vdef)
     (* the result must be well typed whatever else happens *)
     if match impl with Ok a => negb (args_typed sig a) | _ => false end then 4%N
     else if res_eqb_code impl m then verdict true (sat m) (sat impl) k
-    (* the code with class 1 corrected *)
-    else if res_eqb_code impl (impl_request_fixed sig args vds vars strict) then verdict true (sat impl) (sat impl) k
     (* a request the specification rejects statically may also be rejected by
        strict validation (it is not today: C09) *)
     else if strict && negb st && match impl with Err _ => true | _ => false end then 0%N
